@@ -33,6 +33,10 @@ def gen_scenario(rng, i, esn_ok=False):
     if rng.random() < 0.5:
         sc["ops"].append({"op": "run", "model": 0, "X": scengen.rows(rng, rng.randint(1, 3), din), "stateful": False})
     if rng.random() < 0.4:
+        # one run over a list of sequences (for a Model: the same operation on every sequence in turn)
+        sc["ops"].append({"op": "runs", "model": 0, "Xs": [scengen.rows(rng, rng.randint(1, 3), din) for _ in range(rng.randint(2, 3))],
+                          "stateful": rng.random() < 0.7})
+    if rng.random() < 0.4:
         # integer-typed input arrays: results are still the (float) composition of the nodes
         sc["ops"].append({"op": "run", "model": 0, "X": [[str(rng.randint(-5, 5)) for _ in range(din)] for _ in range(rng.randint(1, 4))],
                           "int_input": True, "return_states": rng.choice([None, "all"])})
@@ -41,7 +45,7 @@ def gen_scenario(rng, i, esn_ok=False):
 
 def nontrivial(sc, obs):
     multi = len(sc["models"][0]["edges"]) >= 2
-    moved = any(any(abs(v) > 0 for step in ob["outs"] for out in step for v in out) for ob in obs)
+    moved = any(any(abs(v) > 0 for step in (ob["outs"] or []) for out in step for v in out) for ob in obs)
     return multi and moved
 
 
